@@ -271,6 +271,76 @@ CHECKS = [
              'differential and asserted per asyncssh documentation.',
      'technique': 'exhaustive single-byte mutation + reference-predicate PBT '
                   '+ differential with ssh-keygen / cryptography'},
+    {'id': 'C10', 'memwire': True,
+     'text': 'Whole-connection byte streams (version-line quirks, banner '
+             'lines, framed cleartext packets with inconsistent length / '
+             'padding fields, garbage) in generated chunkings to fresh '
+             'client and server endpoints; an independent peer with the real '
+             'keys sending, in each phase (kex, auth, authenticated, channel, '
+             'sftp), messages whose every numeric field takes {0, 1, 2, 255, '
+             '2^16, 2^31-1, 2^31, 2^32-1} and whose strings are empty / '
+             'non-UTF-8 / huge, followed by application writes; an enumerated '
+             'grid of peer-announced window x maximum packet size x quirk '
+             'version x compression followed by writes (non-progressing send '
+             'loops); random and mutated valid inputs to 13 decoders. Oracle: '
+             'no exception escapes data_received, output and loop steps per '
+             'chunk bounded, owner told exactly once, loop exception handler '
+             'silent, decoders return or raise their documented error, DER '
+             'decoder rejects structurally truncated input (independent TLV '
+             'walker).',
+     'note': 'Constants of the work bound measured on the unchanged tree; '
+             'silent spins caught by a 60 s per-case alarm and confirmed by '
+             'replay; Hypothesis byte strategies rather than atheris (no '
+             'coverage gradient needed to reach the handlers once refpeer '
+             'supplies valid framing and keys).',
+     'technique': 'grammar-based fuzzing (Hypothesis) with work-bound, '
+                  'clean-failure and documented-exception oracles; '
+                  'exhaustive grid over extreme channel parameters'},
+    {'id': 'C17', 'memwire': False,
+     'text': 'known_hosts and authorized_keys texts from grammars (wildcards, '
+             'negation, CIDR, hashed names with generated salts, [host]:port, '
+             'markers, comma lists, nine kinds of damaged key fields incl. '
+             'well-framed impossible parameters; option strings with quotes, '
+             'escaped quotes, commas and spaces inside quotes, repeats) '
+             'against reference matchers written from sshd(8) / '
+             'ssh_config(5) PATTERNS; ssh-keygen -F line numbers and flags on '
+             'the comparable sub-domain; metamorphic relations (inserting a '
+             'damaged line, permuting lines, negating a matching line).',
+     'note': 'Reference matchers transcribe the man-page passages in '
+             'comments; undocumented corners (other backslash pairs, '
+             'upper-case host names, tabs/CRLF) are kept out of the grammar.',
+     'technique': 'PBT against reference matchers + differential with '
+                  'ssh-keygen -F + metamorphic relations'},
+    {'id': 'C18', 'memwire': True,
+     'text': 'Generated client config programs (Host/Match blocks with '
+             'negation and several criteria, seven option spellings, Include '
+             'trees with globs, tokens and ${VAR}, canonical and final '
+             'passes) evaluated exactly as connection.py does and compared '
+             'with an independent evaluator written from ssh_config(5); the '
+             'comparable sub-domain compared with ssh -G -F; server configs '
+             'with hostile remote user names: no loaded path leaves the '
+             'directory its template names and unsafe names are never '
+             'substituted; end-to-end logins under hostile names never '
+             'authenticate.',
+     'note': 'Evaluator itself cross-checked against ssh -G on every '
+             'differential case; options OpenSSH 9.2 cannot print comparably '
+             'are listed in ASSUMPTIONS.',
+     'technique': 'PBT over configuration programs against a reference '
+                  'evaluator + differential with ssh -G'},
+    {'id': 'C19', 'memwire': True,
+     'text': 'Reader programs (read, readexactly, readline, readuntil with '
+             'single / tuple / regex separators spanning packets) on client '
+             'and server streams against a pure reference model over the '
+             'un-chunked stream for every packetization and window; '
+             'SSHCompletedProcess contents whenever an exit status/signal is '
+             'reported, with exit overtaking data in flight; 12 x 13 x 7 '
+             'redirection source/target kinds incl. late redirects; '
+             'drain/pause/resume water marks and failure on close.',
+     'note': 'Real file descriptors polled by an idle selector loop with '
+             'pre-queued data (deterministic); read(n) asserted only as '
+             'documented (1..n units, prefix of the stream).',
+     'technique': 'model-based PBT with chunking-independence metamorphic '
+                  'relation'},
 ]
 
 _BUILT = {c['id'] for c in CHECKS}
